@@ -26,6 +26,7 @@ Inductive event :=
 | EMove (src dst : pos) (f : Z) (s g9 : bool)
 | EDwell (t : Q) (s : bool)
 | ECall (base : N)
+| ERet                                   (* return from an inlined FARCALL *)
 | EErr (code : N).
 
 (* error codes *)
@@ -165,7 +166,7 @@ Section Run.
         end
     | TFarcall _ base =>
         match lookup base (mloaded m) with
-        | Some path => let '(m1, ev) := call m path in (m1, ECall base :: ev)
+        | Some path => let '(m1, ev) := call m path in (m1, ECall base :: ev ++ [ERet])
         | None => err m E_notloaded
         end
     | TBuffered _ _ base =>
